@@ -68,7 +68,8 @@ CHECKS["C02"] = {
               "parsed text form (uri, node, media type, event, document URI), rapid-generated byte strings and mutations, native coverage-guided fuzzing in the thorough tier, and 8 goroutines decoding at once "
               "(typed decoders and TCP transports) inputs whose text forms are new to the process, and frames sent by a raw WebSocket peer to a library WebSocket listener (whole-document scalars and null, the corpus, single-point mutations); "
               "oracle: no panic, and whatever is accepted re-encodes and re-decodes to an equal envelope of the same kind, on the typed "
-              "decoders and on the real TCP receive path; a live Server must survive the inputs."),
+              "decoders and on the real TCP receive path; a live Server must survive the inputs. "
+              "The text members are additionally swept deeper with the few characters each grammar branches on: media types ('a', '/', '+', ';', '=') to 6 pieces (thorough 8), nodes ('a', '@', '/', '.') to 7 (9), URIs to 5 (7)."),
     "note": "Trusts encoding/json and the harness's canonical equality; inputs are sampled/enumerated, not all byte strings.",
     "technique": "systematic structural mutation sweep + property-based testing (rapid) + native go fuzzing, with a re-encode/re-decode stability oracle",
     "rule": ("inputs: corpus literals + hostile constants + generated envelopes; every single-point mutation (delete, 14 replacement values, wrap, "
@@ -125,7 +126,8 @@ CHECKS["C03"] = {
               "established (channel state, established envelope, or the Server's Established callback) the callback log must show Authenticate for exactly the "
               "identity/scheme/credentials the peer presented last, under an offered scheme, returning a known role, followed by Register for the peer's node, "
               "and the established envelope / RemoteNode must announce exactly the registered node. Scripts run over TCP (in-memory connections), TCP+TLS and the in-process transport, against a bare "
-              "ServerChannel, a Server and a ServerBuilder-built server, with peers that stay, half-close, reset, or vanish right after their last envelope."),
+              "ServerChannel, a Server and a ServerBuilder-built server, with peers that stay, half-close, reset, or vanish right after their last envelope. "
+              "Through the builder the peer also sends authenticating envelopes that name a scheme but carry no authentication object at all: no session may come of them under a scheme that needs credentials."),
     "note": "History invariant over callback log + envelopes seen by the scripted peer + exported channel state; scripts/configurations sampled and depth-bounded.",
     "technique": "property-based testing (rapid) + exhaustive depth-bounded script enumeration against a history invariant, in virtual time",
     "rule": ("cases as in C07 (direct and Server modes; enumeration depth 5/6 direct, 4/5 under Server), plus the ServerBuilder entry point over the in-process transport (drawn sets of enabled schemes x 1-3 "
@@ -189,7 +191,9 @@ CHECKS["C08"] = {
               "confirmations incl. a real TLS upgrade, scheme lists, round-trip data of every type, non-session envelopes, undecodable bytes, disconnect/silence) against "
               "ClientChannel.EstablishSession for 4 client configurations, plus rapid-generated scripts/configurations: no panic (also not on the receiver goroutine: a process "
               "crash is attributed to the journalled case), established only if the server's last word was established with id/nodes adopted from it, id echo, credentials only "
-              "in answer to an authentication request, connection closed after finished/failed - at whatever point of the handshake the terminal envelope comes and whether or not EstablishSession then returns an error (server staying connected)."),
+              "in answer to an authentication request, connection closed after finished/failed - at whatever point of the handshake the terminal envelope comes and whether or not EstablishSession then returns an error (server staying connected). "
+              "Channel buffer sizes 0, 1 and 4 are drawn; scripts that go on after establishment: once a later session envelope that is not 'established' has been taken, the channel no longer reports an established session "
+              "(judged when the unconsumed data in front of that envelope fits the buffers)."),
     "note": "Symbols are sent only while the client is provably waiting (synctest.Wait), so 'last word' is exact; clauses are exactly those of the statement.",
     "technique": "exhaustive depth-bounded script enumeration with dynamic pruning + rapid (stateful generation) against invariants over the observed history, in virtual time",
     "rule": ("case = (selectors, authenticator, client TLS config, server script, end). Enumeration depth 3 (quick) / 4 (thorough), a script is only extended while the client still consumes "
@@ -234,7 +238,8 @@ CHECKS["C06"] = {
               "the library's own callbacks serve as in-stage hook points), and every send operation is attempted there: outside established each returns an error and the byte capture of that "
               "side shows nothing but session envelopes; in established they succeed and the peer sees exactly those envelopes. Receive direction: each data kind is injected at every position "
               "of the handshake on both roles: no handler invocation, nothing on inbound streams, and the handshake never ends established. Server role also: while FinishSession / FailSession is still "
-              "in progress (terminal envelope on the wire, the call waiting for its receiver on TCP) a send from another goroutine must fail and emit nothing."),
+              "in progress (terminal envelope on the wire, the call waiting for its receiver on TCP) a send from another goroutine must fail and emit nothing. "
+              "Client role, stages after establishment: the same sends also through the Sender a dispatch-loop handler was given while the session was established and kept."),
     "note": "Stage x role x operation is enumerated completely; the 'finishing' stage and the instant between the server's state change and its established envelope are deliberately not asserted (DESIGN.md).",
     "technique": "exhaustive enumeration of (role, stage, operation) and of injection positions, plus rapid orderings, against wire-capture and return-value oracles, in virtual time",
     "rule": ("stages: server {new, negotiating, authenticating, inside Authenticate, inside Register, established, finished, failed during handshake, failed after established, peer closed}; client "
@@ -266,7 +271,9 @@ CHECKS["C12"] = {
               "with TLS: fragmentation of the raw stream, stalls and cuts. Oracle: what is received is a duplicate-free, in-order sub-sequence of what was attempted, each element equal to "
               "the one sent; every envelope whose Send returned nil arrives when nothing was cut (also one reported sent after an earlier Send failed); a cut in the middle of a write makes a Send fail. "
               "Sends may be given up on their context (cancelled or timed out, per envelope) while the receiver stalls for seconds behind a pipe smaller than a frame, or be issued with a context that is already dead (refused: such an envelope must never arrive, also not with a later one); "
-              "the receiver may ask with short deadlines and ask again (an envelope is lost only if the receiver kept asking)."),
+              "the receiver may ask with short deadlines and ask again (an envelope is lost only if the receiver kept asking). "
+              "TLS cases draw the protocol version (1.3, or capped at 1.2); the sender may close its transport right after its last send (under TLS the close notification follows the data at once) - everything reported sent still arrives; "
+              "the receiver may run with a read limit just above the largest frame of the stream (it bounds one envelope, not the connection); a receiver that stays away for one to three write polls while the sender's context lives on."),
     "note": "Short writes / write timeouts are not injected under TLS (crypto/tls makes any write error permanent, so no retry semantics apply there).",
     "technique": "fault enumeration (exhaustive split points / short-write lengths / cut offsets for small streams) + rapid fault plans, sent-vs-received sequence oracle, in virtual time",
     "rule": ("case = (stream, write fault plan on the sender's connection, read fault plan on the receiver's, global read chunk, coalescing, pipe capacity, TLS). Non-trivial: a fault fired or a frame "
@@ -372,7 +379,7 @@ CHECKS["C05"] = {
 CHECKS["C04"] = {
     "level": "exploration",
     "claim": ("Generated workloads (four kinds, payloads up to 64 KiB, both directions at once, 1-8 sender goroutines per direction, channel buffers 0/1/2/8/64, in-process transport buffers 0/1/4, "
-              "tiny pipes for back-pressure, consumers reading the four streams or an EnvelopeMux, drawn consumer delays, and in a third of the TCP cases a consumer that pauses for 5.5-16 s of virtual time - longer than one to three write polls - every few envelopes while one sender per direction keeps sending) over the in-process, TCP and TCP+TLS transports in virtual time and over "
+              "tiny pipes for back-pressure, consumers reading the four streams or an EnvelopeMux, drawn consumer delays, and in a third of the TCP cases a consumer that pauses for 5.5-16 s of virtual time - longer than one to three write polls - every few envelopes while one sender per direction keeps sending; a third of the virtual-time sessions stay idle for 6-120 s before the traffic, longer than any deadline of the handshake, and a third send every other envelope with a context that has no deadline) over the in-process, TCP and TCP+TLS transports in virtual time and over "
               "TCP, TCP+TLS, ws and wss loopback sockets in real time: the multiset of delivered envelopes equals the multiset of envelopes whose Send* returned nil, each delivered value equals the "
               "sent one, per (sender goroutine, kind) the ids arrive in sending order, each kind arrives on its own stream, and no send fails while the session stays established."),
     "note": "Schedules are sampled (real Go scheduler, GOMAXPROCS varied per shard); consumers never send, except that in a third of the cases a client goroutine issues ProcessCommand calls it cancels after a few yields and the server's consumer answers them (once or twice): noise next to the judged traffic, not judged itself (C05 judges the pending-command table). Real-socket cases wait for all successfully sent envelopes, then 200 ms of silence; a session that drops is inconclusive, not a violation.",
